@@ -32,6 +32,7 @@ void harness_case(Dec &d, Case &c) {
     static const char *paths[] = {"", "/", "/gt-signingservice", "/a/b.c", "/ksi%2Faggr", "/a%7Eb/%20s", "/p%3Aq%5Fr%2e", "/x%25y/%64%6e"}; std::string path = paths[d.pick(8)]; if (path.find('%') != std::string::npos) c.cls("path:percent-encoded"); std::string query = d.pick(3) == 0 ? "q=1&x=y" : ""; std::string frag = d.pick(4) == 0 ? "frag" : "";
     unsigned em = d.pick(4); bool exU = em == 1 || em == 3, exK = em == 2 || em == 3; if (!embed || !ksiScheme) { exU = exK = true; } /* credentials embedded in a non-ksi URI are not KSI credentials: explicit ones are required there */ std::string xu = "explicitU" + std::to_string(d.pick(100)), xk = "explicitK" + std::to_string(d.pick(100)) + "W";
     int svc = (int)d.pick(S_COUNT); bool async = svc >= S_ASYNC_SIGN; bool aggr = svc == S_AGGR || svc == S_ASYNC_SIGN;
+    if (!frag.empty()) { static const char *fv[] = {"frag", "sec/2?x", "a?b=c&d=e", "?x", "p/q.r", "x:y@z", "f%41g", "a-b_c.d~e"}; unsigned v = d.pick(8); frag = fv[v]; if (v) c.cls(frag.find('?') != std::string::npos ? "fragment:with-question-mark" : "fragment:with-reserved-characters"); } // drawn last: older replay files decode to the plain fragment
     std::string rest = host + (port ? ":" + std::to_string(port) : "") + path + (query.empty() ? "" : "?" + query) + (frag.empty() ? "" : "#" + frag);
     std::string uri; if (si == 4) uri = scheme + "://" + g_canned; else uri = scheme + "://" + (embed ? eu + ":" + ek + "@" : "") + rest;
     std::string wantLogin = exU ? xu : eu, wantKey = exK ? xk : ek;
